@@ -69,33 +69,52 @@ func propC11(c *Ctx) {
 				}
 			}
 		}
-		// K4a: no unlock between the first admission test and PushBack
-		var firstTest ssa.Instruction
-		for _, e := range CondEdges(fn) {
-			if e.Atom == "$0.rcvReady" && e.Succ == 0 {
-				firstTest = e.From.Instrs[len(e.From.Instrs)-1]
-			}
-		}
-		if firstTest != nil {
-			t := NewTermer(fn)
-			// walk only along admitted edges
-			bad := reachAvoidingEdges(fn, firstTest, func(in ssa.Instruction) bool {
-				ci, ok := in.(*ssa.Call)
-				return ok && CalleeName(ci) == "(*udp.udpPacketList).PushBack"
-			}, func(in ssa.Instruction) bool {
-				if ci, ok := in.(*ssa.Call); ok {
-					if op := lockOpOf(t, ci); op != nil && op.kind == "unlock" && op.class == "udp.endpoint.rcvMu" {
-						return true
-					}
-				}
+		// K4a: the admission test and the enqueue are one critical section: the rcvMu.Lock
+		// that dominates the enqueue is not followed, on any path that still reaches the
+		// enqueue, by an unlock; and every test that contributes an admission literal
+		// (directly or through a new predicate helper, see inline.go) comes after that Lock.
+		tl := NewTermer(fn)
+		isLock := func(in ssa.Instruction, kind string) bool {
+			ci, ok := in.(*ssa.Call)
+			if !ok {
 				return false
-			}, func(e Edge) bool {
-				// do not follow the drop edges
-				return (e.Atom == "$0.rcvReady" && !e.Holds) || (e.Atom == "$0.rcvClosed" && e.Holds) || (e.Atom == "($0.rcvBufSize < $0.rcvBufSizeMax)" && !e.Holds)
+			}
+			op := lockOpOf(tl, ci)
+			return op != nil && op.kind == kind && op.class == "udp.endpoint.rcvMu"
+		}
+		for _, pb := range c.Calls(fn, Is("(*udp.udpPacketList).PushBack"), false) {
+			var lock ssa.Instruction
+			Instrs(fn, func(in ssa.Instruction) {
+				if isLock(in, "lock") && InstrDominates(in, pb.(ssa.Instruction)) {
+					lock = in
+				}
 			})
-			c.Check(bad == nil, u2, FuncName(fn)+"/test-and-enqueue-atomic", c.pos(firstTest), "no unlock between admission test and enqueue", "rcvMu released between the admission test and the enqueue")
-		} else {
-			c.Bad(u2, FuncName(fn)+"/no-ready-test", c.P.Pos(fn.Pos()), "HandlePacket no longer tests rcvReady")
+			if lock == nil {
+				c.Bad(u2, FuncName(fn)+"/test-and-enqueue-atomic", c.pos(pb), "no rcvMu.Lock dominates the enqueue")
+				continue
+			}
+			bad := ReachAvoiding(fn, lock, func(in ssa.Instruction) bool { return in == pb.(ssa.Instruction) }, func(in ssa.Instruction) bool {
+				return isLock(in, "unlock") && instrReaches(in, pb.(ssa.Instruction))
+			})
+			c.Check(bad == nil, u2, FuncName(fn)+"/test-and-enqueue-atomic", c.pos(lock), "no unlock between taking rcvMu and the enqueue", "rcvMu released between the admission test and the enqueue")
+			// the admission literals guard the enqueue (site table) and their tests lie inside the critical section
+			gi := guardIndex(fn)
+			need := map[string]bool{"$0.rcvReady": false, "!$0.rcvClosed": false, "($0.rcvBufSize < $0.rcvBufSizeMax)": false}
+			for _, g := range gi[pb.Block().Index] {
+				if _, ok := need[g]; ok {
+					need[g] = true
+				}
+			}
+			for g, ok := range need {
+				c.Check(ok, u2, FuncName(fn)+"/admission:"+g, c.pos(pb), "enqueue guarded by "+g, "the enqueue is no longer guarded by "+g)
+			}
+			for _, e := range CondEdges(fn) {
+				ifi := e.From.Instrs[len(e.From.Instrs)-1]
+				if e.Succ != 0 || !instrReaches(ifi, pb.(ssa.Instruction)) || InstrDominates(ifi, lock) {
+					continue
+				}
+				c.Check(InstrDominates(lock, ifi), u2, FuncName(fn)+"/tests-after-lock", c.pos(ifi), "branch between Lock and enqueue lies inside the critical section", "a test that decides the enqueue is evaluated outside the critical section")
+			}
 		}
 	}
 
@@ -208,8 +227,6 @@ func propC11(c *Ctx) {
 			{Kind: "store", Target: "udp.endpoint.shutdownFlags", Args: []string{"$0", "($0.shutdownFlags | $1)"}, Guards: []string{}, Exact: true, N: 1, Why: "the requested directions are recorded on every successful call (no early exit may skip it)"},
 			{Kind: "store", Target: "udp.endpoint.rcvClosed", Args: []string{"$0", "true"}, Guards: []string{rd}, Exact: true, N: 1, Why: "the read side is closed exactly when ShutdownRead is among the flags - regardless of what was shut down before"},
 			{Kind: "call", Target: "(*waiter.Queue).Notify", Args: []string{"$0.waiterQueue", "1"}, Guards: []string{"!$0.rcvClosed", rd}, Exact: true, N: 1, Why: "readers are woken once, when the read side was open before"},
-			{Kind: "return", Args: []string{"tcpip.ErrNotConnected"}, Guards: []string{"!($0.state == 1)", "!($0.state == 2)"}, Exact: true, N: 1, Why: "only bound/connected endpoints can be shut down"},
-			{Kind: "return", Args: []string{"nil"}, Guards: []string{}, Exact: true, N: 1, Why: "success only at the end"},
 		})
 	}
 	if fn := c.Fn(u7, "(*udp.endpoint).Close"); fn != nil {
